@@ -123,6 +123,10 @@ DoAppendRef(n, m) ==                         \* append(n, m): nests m's containe
   /\ Holds(n, "list") /\ Size(n) < MaxLen /\ NoCycle(n, m)
   /\ Mutate(n, MkList(Append(C(n).items, names[m])), OpRec("append_ref", n, m, "", 0, 0))
 
+DoAppendRefSet(n, m) ==                      \* append(n, m) on an empty set: the set HOLDS m's list (no copy)
+  /\ Holds(n, "set") /\ Size(n) = 0 /\ Holds(m, "list") /\ NoCycle(n, m)
+  /\ Mutate(n, Mk("rset", << >>, <<names[m]>>), OpRec("append_ref", n, m, "", 0, 0))
+
 DoAppendAll(n, m) ==                         \* append_all(n, m); m may alias n
   /\ m \in {n, Tgt(n)}
   /\ Holds(m, "list") \/ Holds(m, "set")
@@ -285,7 +289,7 @@ DoAlias(n1, n2) ==                           \* n2 = n1
 Mutator(n) ==
   \/ DoAppend(n) \/ DoInsertAt(n) \/ DoDeleteAt(n) \/ DoRemove(n) \/ DoPut(n)
   \/ DoSetElem(n) \/ DoSetMember(n, 1) \/ DoSetMember(n, 3)
-  \/ \E m \in Names : \/ DoAppendRef(n, m) \/ DoAppendAll(n, m) \/ DoPutRef(n, m)
+  \/ \E m \in Names : \/ DoAppendRef(n, m) \/ DoAppendRefSet(n, m) \/ DoAppendAll(n, m) \/ DoPutRef(n, m)
                       \/ DoSetElemRef(n, m) \/ DoSetMemberRef(n, m)
 
 NonMutating(n) ==
@@ -324,6 +328,12 @@ InitSeq == <<
   [h |-> H(<<L(<< >>), Mk("map", << >>, << >>)>>), n |-> NM(R(1), R(2), R(1), R(2))],
   \* the same list twice inside one list
   [h |-> H(<<L(<<R(2), R(2)>>), L(<<I(1)>>)>>),    n |-> NM(R(1), R(2), Null, Null)],
+  \* an object and its prototype (member code 4 is `_proto_`): a member assignment through the object
+  \* writes the object's own table, never the prototype's
+  [h |-> H(<<Mk("obj", <<4>>, <<R(2)>>), Mk("obj", <<1, 3>>, <<I(1), I(2)>>)>>),
+                                                   n |-> NM(R(1), R(2), R(1), R(2))],
+  \* an empty set and a list: the set will hold the list itself
+  [h |-> H(<<MkSet({}), L(<<I(1)>>)>>),            n |-> NM(R(1), R(2), R(2), R(1))],
   \* values of literals (the builder obtains them from lit_str() / lit_list())
   [h |-> H(<<LitStr, LitList>>),                   n |-> NM(R(1), R(2), Null, Null)] >>
 
@@ -342,14 +352,15 @@ Spec == Init /\ [][Next]_vars
 -----------------------------------------------------------------------------
 (* Properties. *)
 
-Kinds == {"list", "set", "map", "obj", "str", "free"}
+Kinds == {"list", "set", "rset", "map", "obj", "str", "free"}     \* "rset": a set whose only member is a list (append(set, list))
 
 TypeOK ==
   /\ DOMAIN names = Names
   /\ \A r \in Ref :
        LET c == heap[r] IN
        /\ c.k \in Kinds
-       /\ c.k \in {"list", "set", "str", "free"} => c.keys = << >>
+       /\ c.k \in {"list", "set", "rset", "str", "free"} => c.keys = << >>
+       /\ c.k = "rset" => Len(c.items) = 1 /\ IsRef(c.items[1])
        /\ c.k = "str" => AllInts(c.items)
        /\ c.k \in {"map", "obj"} => Len(c.keys) = Len(c.items)
        /\ c.k = "free" => c.items = << >>
